@@ -205,6 +205,45 @@ mut("c15-foreach-poll-with-sleep", [(L, LFE_FULL, """	var mu sync.Mutex
 	}
 	return ego.Ego()"""), (L, '	"sync"\n)', '	"sync"\n	"time"\n)')], [], ["C15"], note="PRESERVING: polls a mutex-protected counter, sleeping between polls")
 
+mut("c15-foreach-cond-wait", [(L, LFE_FULL, """	var mu sync.Mutex
+	cond := sync.NewCond(&mu)
+	left := ego.Ego().Count()
+	for i, item := range ego.val {
+		go func(i int, x any) {
+			function(i, x)
+			mu.Lock()
+			left--
+			if left == 0 {
+				cond.Broadcast()
+			}
+			mu.Unlock()
+		}(i, item.getVal())
+	}
+	mu.Lock()
+	for left > 0 {
+		cond.Wait()
+	}
+	mu.Unlock()
+	return ego.Ego()""")], [], ["C15"], note="PRESERVING: waits on a sync.Cond until a mutex-protected counter reaches zero")
+mut("c15-foreach-cond-wait-if-instead-of-for", [(L, LFE_FULL, """	var mu sync.Mutex
+	cond := sync.NewCond(&mu)
+	left := ego.Ego().Count()
+	for i, item := range ego.val {
+		go func(i int, x any) {
+			function(i, x)
+			mu.Lock()
+			left--
+			cond.Signal()
+			mu.Unlock()
+		}(i, item.getVal())
+	}
+	mu.Lock()
+	if left > 0 {
+		cond.Wait()
+	}
+	mu.Unlock()
+	return ego.Ego()""")], ["C15"], note="waits once on a Cond that every worker signals: returns after the first callback that finishes while the caller waits")
+
 # ---------------------------------------------------------------- C04
 mut("c04-accept-eof-after-string", [(P, """	// No matching rule - error
 	return nil, 0, fmt.Errorf("not a valid JSON - unexpected end of input")
